@@ -1,4 +1,4 @@
-//@serves C10 C11 C17
+//@serves C05 C10 C11 C17
 //@tier A
 //@include prelude/head.rs
 verus! {
